@@ -219,6 +219,22 @@ let handle (req : sexp) : sexp =
     L (List.map (fun (v, c) -> L [A (pr v); A (string_of_z c)]) out)
   | L [A "unify_codes"; p; codes] ->
     zl (unify_codes (List.map (fun x -> nat_of x) (lst p)) (zlist codes))
+  | L [A "combine_factorizations"; rows; weights; cart] ->
+    let (comb, uniq) = combine_factorizations (List.map zlist (lst rows)) (zlist weights) (nat_of cart) in
+    L [zl comb; L (List.map zl uniq)]
+  | L [A "group_sorted_indexer"; chunks; ng; km; m] ->
+    let chs = List.map zlist (lst chunks) in
+    let codes = List.concat chs in
+    let n_groups = int_of ng in
+    let key_map = (match km with A "none" -> None | l -> Some (zlist l)) in
+    let mask = bmask_of m in
+    (* group_counts in OUTPUT order, as the caller computes them from the (masked) key counts *)
+    let sel i = (match mask with None -> true | Some mm -> List.nth mm i) in
+    let count_of g = List.length (List.filter (fun x -> x) (List.mapi (fun i c -> small_int_of_z c = g && sel i) codes)) in
+    let out_pos k = (match key_map with None -> k | Some kmap -> small_int_of_z (List.nth kmap k)) in
+    let counts = Array.make n_groups 0 in
+    for g = 0 to n_groups - 1 do counts.(out_pos g) <- count_of g done;
+    zl (build_group_sorted_indexer chs (List.map z_of_int (Array.to_list counts)) key_map mask)
   | L (A op :: _) -> failwith ("unknown op " ^ op)
   | _ -> failwith "bad request"
 
